@@ -35,7 +35,7 @@ EXPLANATION = (
 )
 RULE_TEXT = "per function / class / dereference / extraction site / raise statement"
 UNDECIDED = ["termination", "RecursionError (input-depth recursion exists in from_xml, dfs_iterator, _process_element)", "TypeError / AssertionError guarded by data-dependent invariants",
-             "every returned document can be written under every configuration, as a whole (e.g. intervals shorter than the output's time resolution)"]
+             "every returned document can be written under every configuration, as a whole (decided only for the enumerated exception sources: RAISE-interval, RAISE-guard, EXC-ruby, NUL-*, IDX-*)"]
 TRUSTED = ["hand-confirmed table of None sources", "may-raise summaries of rules/exc.py"]
 
 DOCUMENTED = {"ValueError", "UnicodeDecodeError", "NotImplementedError", "StopIteration"}
